@@ -11,7 +11,7 @@ Import ListNotations.
 Open Scope N_scope.
 
 (* errCodeTruncated = -1, FieldNumber = -2, Overflow = -3, Reserved = -4,
-   EndGroup = -5, RecursionDepth = -6 (checked against Gen/Consts.v) *)
+   EndGroup = -5, RecursionDepth = -6 (proved equal to the constants of Gen/WireGo.v in Wire/WireGoP.v) *)
 Inductive werr := Truncated | FieldNumber | Overflow | Reserved | EndGroup | RecursionDepth | OutOfFuel.
 Inductive result (A : Type) := Ok (a : A) | Err (e : werr).
 Arguments Ok {A}. Arguments Err {A}.
@@ -21,6 +21,24 @@ Definition werr_code (e : werr) : Z :=
   | Truncated => -1 | FieldNumber => -2 | Overflow => -3 | Reserved => -4
   | EndGroup => -5 | RecursionDepth => -6 | OutOfFuel => -99
   end%Z.
+
+(* ParseError: error code -> class of the returned error value
+   (nil, io.ErrUnexpectedEOF, errFieldNumber, errOverflow, errReserved,
+   errEndGroup, errParse) *)
+Inductive perr := PNil | PUnexpectedEOF | PFieldNumber | POverflow | PReserved | PEndGroup | PParse.
+Definition parse_error (n : Z) : perr :=
+  if (0 <=? n)%Z then PNil
+  else if (n =? -1)%Z then PUnexpectedEOF
+  else if (n =? -2)%Z then PFieldNumber
+  else if (n =? -3)%Z then POverflow
+  else if (n =? -4)%Z then PReserved
+  else if (n =? -5)%Z then PEndGroup
+  else PParse.
+Definition perr_class (p : perr) : N :=
+  match p with
+  | PNil => 0 | PUnexpectedEOF => 1 | PFieldNumber => 2 | POverflow => 3
+  | PReserved => 4 | PEndGroup => 5 | PParse => 6
+  end.
 
 (* ---------- varint ---------- *)
 Fixpoint enc_varint_fuel (fuel : nat) (v : N) : list byte :=
@@ -176,8 +194,8 @@ Fixpoint parse_val (dep : nat) (num typ : N) (bs : list byte) {struct dep} : res
   | _ => Err Reserved
   end.
 
-(* DefaultRecursionLimit = 10000 (checked against Gen/Consts.v): depth 10000
-   means dep = 10001 *)
+(* DefaultRecursionLimit = 10000 (proved equal to Gen/WireGo.v's constant in
+   Wire/WireGoP.v): depth 10000 means dep = 10001 *)
 Definition default_dep : nat := N.to_nat 10001.
 
 (* ConsumeFieldValue: length consumed, or error *)
